@@ -627,6 +627,47 @@ pub fn exec_map<const N: usize>(cage: &mut Cage<Map<Key, Val, N>>, op: &Value, c
                 Some(()) => json!(["unit"]),
             }
         }
+        "b_eq" => {
+            // == / != against a second map holding the classes op.b with value contents op.bv
+            // (objects 50 + i); the same episode as the micro model (MapMicro.tla, "binary" family)
+            let mut b = Map::<Key, Val, N>::new();
+            {
+                // (under a comparison script the operand is built like the state: every key appended)
+                let saved = ledger::with(|l| (l.eq_script.take(), l.in_call, l.panic_at));
+                ledger::with(|l| {
+                    l.eq_script = Some(vec![]);
+                    l.eq_default = false;
+                    l.in_call = true;
+                    l.panic_at = 0;
+                });
+                let (cb0, pos0) = ledger::with(|l| (l.cb, l.eq_pos));
+                for (idx, c) in op["b"].as_array().unwrap().iter().enumerate() {
+                    let k = Key::new(c.as_u64().unwrap() as Cls, 1);
+                    let v = Val::new(op["bv"][idx].as_u64().unwrap_or(0) as u8);
+                    ctx.tags.bind_k(50 + idx as i64 + 1, k.serial);
+                    ctx.tags.bind_v(50 + idx as i64 + 1, v.serial);
+                    ctx.stash_serials.push(k.serial);
+                    ctx.stash_serials.push(v.serial);
+                    b.insert(k, v);
+                }
+                ledger::with(|l| {
+                    l.eq_script = saved.0;
+                    l.in_call = saved.1;
+                    l.panic_at = saved.2;
+                    l.cb = cb0;
+                    l.eq_pos = pos0;
+                    l.eq_overrun = 0;
+                    let keep = l.cb_log.len().min(cb0 as usize);
+                    l.cb_log.truncate(keep);
+                });
+            }
+            let b = Box::new(b);
+            let a = &cage.m;
+            let bb: &Map<Key, Val, N> = &b;
+            let r = if op["ne"].as_bool().unwrap_or(false) { call(ctx, || a != bb) } else { call(ctx, || a == bb) };
+            ctx.stash.push(b);
+            json!(["b", r])
+        }
         "eq_clone" => {
             // (traces) a container compares equal to its own clone, whatever its size and slot order
             let m = &cage.m;
@@ -1556,6 +1597,7 @@ pub fn exec_set<const N: usize>(cage: &mut Cage<Set<Key, N>>, op: &Value, ctx: &
             let a = &cage.m;
             let bb: &Set<Key, N> = &b;
             let r = match name {
+                "b_eq" if op["ne"].as_bool().unwrap_or(false) => json!(["b", call(ctx, || a != bb)]),
                 "b_eq" => json!(["b", call(ctx, || a == bb)]),
                 "b_pred" => json!(["b", match s(op, "p") {
                     "is_subset" => call(ctx, || a.is_subset(bb)),
